@@ -284,12 +284,22 @@ def replay_cases(binary, cases, nproc=None, timeout=900, env=None, args=(), max_
 
     crash_budget = [max_crashes]
 
+    per_case = [None]     # observed seconds per case (from shards that made progress), to size re-run timeouts
+
     def run_shard(shard, depth=0):
         if crash_budget[0] <= 0:
             # the check already fails; do not spend minutes re-running thousands of crashing cases one by one
             return [{"id": c["id"], "ok": True, "skipped": True} for c in shard]
         text = "".join(json.dumps(c, separators=(",", ":")) + "\n" for c in shard)
-        rc, so, se = run_harness(binary, args, stdin_text=text, timeout=timeout, env=env)
+        # re-runs after a failure (depth > 0) get a time limit derived from the observed speed: a hanging case must not
+        # cost the full shard timeout again and again
+        tmo = timeout
+        if depth > 0:
+            est = per_case[0] if per_case[0] is not None else 2.0
+            tmo = min(timeout, 30 + int(25 * est * len(shard)) + (90 if len(shard) == 1 else 0))
+        t0 = time.time()
+        rc, so, se = run_harness(binary, args, stdin_text=text, timeout=tmo, env=env)
+        dt = time.time() - t0
         res = []
         seen = set()
         for line in so.splitlines():
@@ -302,12 +312,17 @@ def replay_cases(binary, cases, nproc=None, timeout=900, env=None, args=(), max_
             if "id" in d:
                 res.append(d)
                 seen.add(d["id"])
+        if seen and rc != -999:
+            pc = dt / len(seen)
+            per_case[0] = pc if per_case[0] is None else max(per_case[0], pc)
+        elif seen and per_case[0] is None:
+            per_case[0] = max(0.05, min(dt, 60.0) / len(seen))
         if rc != 0 or len(seen) != len(shard):
             rest = [c for c in shard if c["id"] not in seen]
             if len(shard) == 1:
                 kind = "timeout" if rc == -999 else ("sanitizer" if rc in (97, 98) or "Sanitizer" in se or "runtime error" in se else "crash")
                 # one more run of this single case with step markers to learn where it died
-                rc2, so2, se2 = run_harness(binary, args, stdin_text=text, timeout=timeout, env=dict(env or {}, VH_STEPS="1"))
+                rc2, so2, se2 = run_harness(binary, args, stdin_text=text, timeout=tmo, env=dict(env or {}, VH_STEPS="1"))
                 marks = [l for l in se2.splitlines() if l.startswith("STEP ")]
                 step = int(marks[-1].split()[1]) if marks else -1
                 head = "\n".join([l for l in se.splitlines() if "ERROR" in l or l.lstrip().startswith("#")][:8])
